@@ -15,5 +15,7 @@ LawFinalIssuer == FinalIssuerOK(s)
 \* the cross-signed twin is never swallowed: it is in the stored path whenever it was submitted
 LawCrossKept == s.tail \in {"cross", "crossroot"} => \E i \in 1..Len(StoredPathOf(s)) : StoredPathOf(s)[i] = R1x
 LawFieldsVerbatim == FieldsVerbatim(s) /\ FieldsDoNotMatter(s)
+LawEkuMembership == EkuMembershipDecides(s)
+ASSUME EkuDimensionComplete
 Export == PrintT(<<"CASE", ToJson(Case(s))>>)
 =============================================================================
